@@ -78,6 +78,7 @@ M = [
     ("C10", "cache-output-not-truncated", S + "cmd_cache_create.py", '        with open(output_file, "wb") as f:', '        import os as _os\n        with open(output_file, "r+b" if _os.path.exists(output_file) else "wb") as f:'),
     ("C02", "envelope-appended-to-existing-output", S + "input_output.py", '        with open(file_name, "wb") as fh:\n            fh.write(self.prepare_suit_data(data))', '        with open(file_name, "ab") as fh:\n            fh.write(self.prepare_suit_data(data))'),
     ("C03", "json-output-not-truncated", S + "input_output.py", '        with open(file_name, "w", encoding=cls.DEFAULT_ENCODING) as fh:\n            json.dump(cls.parse_json_submanifests(data)', '        import os as _os\n        with open(file_name, "r+" if _os.path.exists(file_name) else "w", encoding=cls.DEFAULT_ENCODING) as fh:\n            json.dump(cls.parse_json_submanifests(data)'),
+    ("C17", "revert-F13-shared-values-accepted", S + "suit/types/common.py", '        SuitObject.reject_shared_values(value)\n        return value\n', '        return value\n'),
     ("C18", "payload-file-memo-by-path", S + "cmd_cache_create.py", '            with open(input_file, "rb") as f:\n                data = f.read()\n\n            cache.add_cache_slot(uri, data)', '            with open(input_file, "rb") as f:\n                data = globals().setdefault("_FILES", {}).setdefault(input_file, f.read())\n\n            cache.add_cache_slot(uri, data)'),
     ("C18", "parsed-envelope-memo-by-path-and-size", S + "input_output.py", '        with open(file_name, "rb") as fh:\n            data = fh.read()\n            suit = SuitEnvelopeTagged.from_cbor(data)\n            return suit.to_obj()', '        with open(file_name, "rb") as fh:\n            data = fh.read()\n            memo = globals().setdefault("_PARSED", {})\n            key = (str(file_name), len(data))\n            if key not in memo:\n                memo[key] = SuitEnvelopeTagged.from_cbor(data).to_obj()\n            import copy\n            return copy.deepcopy(memo[key])'),
     ("C19", "list-without-top-built-late", "ncs/root_with_nordic_top_envelope.yaml.jinja2", "{%- set component_list_without_top = component_list[:] %}\n{%- if top is defined %}", "{%- set component_list_without_top = component_list %}\n{%- if top is defined %}"),
